@@ -136,6 +136,14 @@ class LeaseCheckingCrawler(ShareCrawler):
         # the keys individually
         for k in so_far:
             self.state["cycle-to-date"].setdefault(k, so_far[k])
+        # the state file stores the histogram in its JSON-safe form, a list
+        # of (minage, maxage, count): when a cycle is resumed after a
+        # restart, turn it back into the dictionary that
+        # add_lease_age_to_histogram() updates
+        lah = self.state["cycle-to-date"]["lease-age-histogram"]
+        if isinstance(lah, list):
+            self.state["cycle-to-date"]["lease-age-histogram"] = dict(
+                ((minage, maxage), count) for (minage, maxage, count) in lah)
 
     def create_empty_cycle_dict(self):
         recovered = self.create_empty_recovered_dict()
